@@ -13,8 +13,16 @@ Three layers, each mirroring the code that exists:
   line-for-line the same with `anext/athrow/StopAsyncIteration`), of PEP 479 (a `StopIteration` leaving a generator frame
   becomes a `RuntimeError` chained to it; in an async generator also `StopAsyncIteration`), and of the `with` statement.
 
-The async variant runs on the same machine (`Mode.async`); every `await` is an atomic step, i.e. what other tasks do between
-two awaits is not modelled.
+The async variant runs on the same machine (`Mode.async`); every `await` is an atomic step.  What *other uses of the same
+manager* do while one use is suspended inside its block is modelled by the history machine at the end of the file (`Op`,
+`stepOp`, `runOps`): a history of enter / exit events over several live uses of ONE decorated manager, in any interleaving
+(tasks, generators, `ExitStack`, self-nesting).  Where the wrapper keeps the user generator between the yield and the cleanup
+(a local of the wrapper call = per use, or a `nonlocal` / `global` cell = shared by all live uses) is read from the source.
+
+Arguments: a call `cm(*pos, **kw)` is the tuple `CallArgs` of positional object identities and (interned keyword name, object
+identity) pairs in the caller's order.  Python's binding of that tuple to the parameters of the user generator function is
+environment: `fits` says whether `f(*pos, **kw)` binds (else that call raises `TypeError`), the harness computes it with
+a plain function of the same parameter list and cross-checks it against the real call.
 
 Object identity: an exception object is `Exc` = (kind, id, cause id); objects with the same id are the same object, so Python's
 `exc is value` is structural equality of `Exc` values.
@@ -67,8 +75,15 @@ def exitIsStop : Mode → EK → Bool
   | .sync, k => k == .stopIteration
   | .async, k => k == .stopIteration || k == .stopAsyncIteration
 
+/-- the arguments of one call of the manager -/
+structure CallArgs where
+  pos : List Nat                 -- identities of the positional arguments
+  kw : List (Nat × Nat)          -- (interned keyword name, identity), caller's order
+  fits : Bool := true            -- Python can bind this tuple to the parameters of the user generator function
+deriving DecidableEq, Repr
+
 inductive Ev where
-  | setup (tag : Nat) (args : Nat)   -- user generator `tag` ran its setup having received the argument object `args`
+  | setup (tag : Nat) (args : CallArgs)   -- user generator `tag` ran its setup having received exactly this argument tuple
   | bind (tag : Nat) (v : Nat)       -- the with-body of manager `tag` was entered with `as` bound to object `v`
   | body (n : Nat)                   -- leaf body `n` ran
   | cleanup (tag : Nat)              -- the code after the first yield ran
@@ -94,8 +109,8 @@ structure UState where
   done : Bool := false
 deriving DecidableEq, Repr
 
-/-- `next(iterator)` on the user generator; `recv` = the argument object the generator function was called with -/
-def userNext (g : UserGen) (recv : Nat) (s : UState) : List Ev × GRes × UState :=
+/-- `next(iterator)` on the user generator; `recv` = the argument tuple the generator function was called with -/
+def userNext (g : UserGen) (recv : CallArgs) (s : UState) : List Ev × GRes × UState :=
   if s.done then ([], .stop, s) else
   let ev : Ev := match s.served with
     | 0 => .setup g.tag recv | 1 => .cleanup g.tag | _ => .extra g.tag
@@ -113,7 +128,7 @@ def leave (m : Mode) (fresh : Nat) (e : Exc) : Exc :=
 
 /-- `n` consecutive `next(iterator)` statements; the first that raises ends the run.  An exhausted iterator raises a new
     Stop(Async)Iteration object (id `fresh+1`). -/
-def runNexts (m : Mode) (g : UserGen) (recv fresh : Nat) : Nat → UState → List Ev × Option Exc × UState
+def runNexts (m : Mode) (g : UserGen) (recv : CallArgs) (fresh : Nat) : Nat → UState → List Ev × Option Exc × UState
   | 0, u => ([], none, u)
   | n + 1, u =>
     match userNext g recv u with
@@ -122,7 +137,7 @@ def runNexts (m : Mode) (g : UserGen) (recv fresh : Nat) : Nat → UState → Li
     | (evs, .raised e, u') => (evs, some e, u')
 
 /-- the cleanup statements: every block is `try: next(it)×n except <c>: pass` (c = none: no try) -/
-def runBlocks (m : Mode) (g : UserGen) (recv fresh : Nat) : List (Nat × Caught) → UState → List Ev × Option Exc × UState
+def runBlocks (m : Mode) (g : UserGen) (recv : CallArgs) (fresh : Nat) : List (Nat × Caught) → UState → List Ev × Option Exc × UState
   | [], u => ([], none, u)
   | (n, c) :: rest, u =>
     let r := runNexts m g recv fresh n u
@@ -132,11 +147,11 @@ def runBlocks (m : Mode) (g : UserGen) (recv fresh : Nat) : List (Nat × Caught)
       else r
     | none => let r2 := runBlocks m g recv fresh rest r.2.2; (r.1 ++ r2.1, r2.2.1, r2.2.2)
 
-def cleanupBlock (m : Mode) (g : UserGen) (recv fresh : Nat) (u : UState) : List Ev × Option Exc × UState :=
+def cleanupBlock (m : Mode) (g : UserGen) (recv : CallArgs) (fresh : Nat) (u : UState) : List Ev × Option Exc × UState :=
   runBlocks m g recv fresh (shape m).cleanup u
 
 /-- exception `e` is pending at the `yield next(iterator)` statement of the wrapper -/
-def unwind (m : Mode) (g : UserGen) (recv fresh : Nat) (e : Exc) (u : UState) : List Ev × GRes :=
+def unwind (m : Mode) (g : UserGen) (recv : CallArgs) (fresh : Nat) (e : Exc) (u : UState) : List Ev × GRes :=
   if (shape m).cleanupInFinally then
     match cleanupBlock m g recv fresh u with
     | (evs, some e', _) => (evs, .raised (leave m fresh e'))     -- an exception in `finally` replaces the pending one
@@ -148,8 +163,10 @@ inductive WState where
 deriving DecidableEq, Repr
 
 /-- `next(wrapper_generator)` -/
-def wrapNext (m : Mode) (g : UserGen) (recv fresh : Nat) : WState → List Ev × GRes × WState
+def wrapNext (m : Mode) (g : UserGen) (recv : CallArgs) (fresh : Nat) : WState → List Ev × GRes × WState
   | .notStarted =>
+    -- `iterator = f(*args, **kwargs)` stands in front of the `try`: a tuple that does not bind raises TypeError right there
+    if !recv.fits then ([], .raised { kind := .exception, id := fresh }, .done) else
     match userNext g recv {} with
     | (evs, .yielded v, u) => (evs, .yielded v, .suspended u)
     | (evs, .stop, u) =>
@@ -165,7 +182,7 @@ def wrapNext (m : Mode) (g : UserGen) (recv fresh : Nat) : WState → List Ev ×
   | .done => ([], .stop, .done)
 
 /-- `wrapper_generator.throw(value)` -/
-def wrapThrow (m : Mode) (g : UserGen) (recv fresh : Nat) (value : Exc) : WState → List Ev × GRes × WState
+def wrapThrow (m : Mode) (g : UserGen) (recv : CallArgs) (fresh : Nat) (value : Exc) : WState → List Ev × GRes × WState
   | .suspended u => let r := unwind m g recv fresh value u; (r.1, r.2, .done)
   | _ => ([], .raised value, .done)
 
@@ -189,7 +206,7 @@ def exitDecision (m : Mode) (fresh : Nat) (value : Exc) : GRes → Except Exc Bo
   | .yielded _ => .error { kind := .runtimeError, id := fresh + 4 }     -- "generator didn't stop after throw()"
 
 /-- leaving the `with` block of a manager whose wrapper generator is in state `w`, the block having ended with `fin` -/
-def exitWith (m : Mode) (g : UserGen) (recv fresh : Nat) (w : WState) : Final → List Ev × Final
+def exitWith (m : Mode) (g : UserGen) (recv : CallArgs) (fresh : Nat) (w : WState) : Final → List Ev × Final
   | .raised e =>
     let r := wrapThrow m g recv fresh e w
     (r.1, match exitDecision m fresh e r.2.1 with
@@ -212,12 +229,13 @@ def BodyOut.final : BodyOut → Final
 /-- programs: leaf bodies, `with cm(args) as v: inner`, and sequencing -/
 inductive Prog where
   | body (n : Nat) (b : BodyOut)
-  | withCm (g : UserGen) (args : Nat) (inner : Prog)
+  | withCm (g : UserGen) (args : CallArgs) (inner : Prog)
   | seq (p q : Prog)
 deriving Repr
 
-/-- the argument object the user generator function receives -/
-def passArgs (m : Mode) (args : Nat) : Nat := if (shape m).forwardsArgs then args else 0
+/-- the argument tuple the user generator function is called with: the wrapper's own `(*args, **kwargs)` handed on as
+    `f(*args, **kwargs)`, or (any other call expression) not the caller's tuple -/
+def passArgs (m : Mode) (args : CallArgs) : CallArgs := if (shape m).forwardsArgs then args else { pos := [], kw := [], fits := false }
 
 /-- run a program; `fresh` = first unused object id for exceptions the interpreter creates (5 per `with`) -/
 def exec (m : Mode) : Prog → Nat → List Ev × Final × Nat
@@ -264,5 +282,77 @@ def decorate (m : Mode) (k : FnKind) (hasName : Bool) : DecoOut :=
 def expectedWrap : Mode → Wrap
   | .sync => .contextmanager
   | .async => .asynccontextmanager
+
+/-! ## Overlapping uses of ONE decorated manager: histories of enter / exit events
+
+Every `enter` calls the manager (a new wrapper generator and a new user generator are created) and runs `__enter__`; `exit i fin`
+ends the block of the `i`-th use with `fin` and runs its `__exit__`.  Uses may overlap in any order (two tasks inside
+`async with m()` at the same time, generators suspended inside `with m()`, `ExitStack`, the manager nested in itself).
+
+The wrapper frame of use `i` reaches its user generator through the variable `iterator`.  If that variable is a local of the
+wrapper call (`iteratorPerUse`, read from the source) the frame of use `i` refers to the generator use `i` created; if it is one
+`nonlocal` / `global` cell, every frame refers to the generator created LAST. -/
+
+structure UseRec where
+  g : UserGen
+  recv : CallArgs
+  fresh : Nat
+  u : UState          -- state of the user generator this use created
+  live : Bool         -- its wrapper frame is suspended at the yield (the block is running)
+deriving DecidableEq, Repr
+
+inductive Op where
+  | enter (g : UserGen) (args : CallArgs)
+  | exit (i : Nat) (fin : Final)
+deriving DecidableEq, Repr
+
+/-- what the caller of one operation sees besides the journal -/
+inductive OpOut where
+  | entered (v : Nat)            -- the block runs with `as` bound to `v`
+  | enterFailed (e : Exc)        -- `__enter__` raised
+  | exited (fin : Final)         -- how the `with` statement ended
+  | ignored                      -- `exit` of a use that is not live
+deriving DecidableEq, Repr
+
+/-- first object id the interpreter may use for the `i`-th use (5 per use, as in `exec`) -/
+def freshOf (i : Nat) : Nat := 1000 + 5 * i
+
+/-- the user generator the wrapper frame of use `i` finds in `iterator` when `n` uses have been started -/
+def target (m : Mode) (n i : Nat) : Nat := if (shape m).iteratorPerUse then i else n - 1
+
+/-- state of the user generator after the wrapper frame that refers to it was resumed / thrown into at its yield -/
+def genAfterExit (m : Mode) (g : UserGen) (recv : CallArgs) (fresh : Nat) (u : UState) : Final → UState
+  | .raised _ => if (shape m).cleanupInFinally then (cleanupBlock m g recv fresh u).2.2 else u
+  | _ => (cleanupBlock m g recv fresh u).2.2
+
+def stepOp (m : Mode) (us : List UseRec) : Op → List Ev × OpOut × List UseRec
+  | .enter g args =>
+    let recv := passArgs m args
+    let fresh := freshOf us.length
+    match wrapNext m g recv fresh .notStarted with
+    | (evs, .yielded v, .suspended u) => (evs ++ [.bind g.tag v], .entered v, us ++ [⟨g, recv, fresh, u, true⟩])
+    | (evs, .yielded v, _) => (evs ++ [.bind g.tag v], .entered v, us ++ [⟨g, recv, fresh, {}, false⟩])      -- not reachable
+    | (evs, .raised e, _) => (evs, .enterFailed e, us ++ [⟨g, recv, fresh, (userNext g recv {}).2.2, false⟩])
+    | (evs, .stop, _) =>
+      (evs, .enterFailed { kind := .runtimeError, id := fresh + 3 }, us ++ [⟨g, recv, fresh, (userNext g recv {}).2.2, false⟩])
+  | .exit i fin =>
+    match us[i]? with
+    | none => ([], .ignored, us)
+    | some r =>
+      if !r.live then ([], .ignored, us) else
+      match us[target m us.length i]? with
+      | none => ([], .ignored, us)
+      | some c =>
+        let x := exitWith m c.g c.recv r.fresh (.suspended c.u) fin
+        let us1 := us.set (target m us.length i) { c with u := genAfterExit m c.g c.recv r.fresh c.u fin }
+        (x.1, .exited x.2, us1.modify i (fun r => { r with live := false }))
+
+/-- a whole history: per operation its journal and what its caller saw -/
+def runOps (m : Mode) : List UseRec → List Op → List (List Ev × OpOut) × List UseRec
+  | us, [] => ([], us)
+  | us, op :: rest =>
+    let r := stepOp m us op
+    let t := runOps m r.2.2 rest
+    ((r.1, r.2.1) :: t.1, t.2)
 
 end PedVerif.CtxMgr
